@@ -516,6 +516,10 @@ class StoreRun:
             if c[0] == 'idle':
                 if raw.startswith(b'+'):
                     self.idle[s] = tag
+                    # a mailbox that changed since the last command is reported at once
+                    # (by the updates task, which may run after the reader task starved)
+                    await self.settle()
+                    raw += conn.take()
                 # the connection now waits in read_idle_done, not in readline
             elif susp != expected:
                 self.atomicity.append((label, susp))
